@@ -19,7 +19,8 @@ def parse_data(content, type_code):
 
     raw = np.frombuffer(content, dtype)
     if type_code == "C*8":
-        return raw["real"] + 1j * raw["imag"]
+        # reinterpret the (real, imag) pairs: arithmetic would turn (x, inf) into nan+infj and drop the sign of -0.0
+        return raw.view(">c8")
     return raw
 
 
